@@ -1501,6 +1501,9 @@ class Executor:
 
         # Try to handle one of the pending EPR responses
         handled = False
+        # Responses for the same (role, remote node, purpose) are handled in order of
+        # arrival: a response may not overtake an earlier one that has to wait.
+        waiting_keys = set()
         for i, response in enumerate(self._pending_epr_responses):
 
             if response.type == ReturnType.ERR:
@@ -1509,6 +1512,14 @@ class Executor:
                 self._logger.debug(
                     f"Try to handle EPR OK ({response.type}) response from network stack"
                 )
+                response_key = (
+                    response.directionality_flag,  # type: ignore
+                    response.remote_node_id,  # type: ignore
+                    response.purpose_id,  # type: ignore
+                )
+                if response_key in waiting_keys:
+                    continue
+                waiting_keys.add(response_key)
                 info = self._extract_epr_info(response=response)  # type: ignore
                 if info is not None:
                     epr_cmd_data, pair_index, is_creator, request_key = info
